@@ -38,6 +38,9 @@ func UF(ret, name string, args ...Term) Term {
 	}
 	ufSigs[name] = sig
 	ufMu.Unlock()
+	if len(args) == 0 {
+		return Term{name, ret} // a constant
+	}
 	return app(ret, name, args...)
 }
 
@@ -226,6 +229,10 @@ var solvers = []solverSpec{
 	{"z3-new", func(f string, t, seed int) []string {
 		return []string{"z3-new", fmt.Sprintf("-T:%d", t), fmt.Sprintf("smt.random_seed=%d", seed), fmt.Sprintf("sat.random_seed=%d", seed), f}
 	}},
+	{"z3-new-ematch", func(f string, t, seed int) []string {
+		// E-matching only (no model-based quantifier instantiation): fast on VCs whose triggers are explicit in the terms
+		return []string{"z3-new", fmt.Sprintf("-T:%d", t), "smt.mbqi=false", "smt.auto_config=false", fmt.Sprintf("smt.random_seed=%d", seed), f}
+	}},
 	{"cvc5", func(f string, t, seed int) []string {
 		return []string{"cvc5", fmt.Sprintf("--tlimit=%d", t*1000), fmt.Sprintf("--seed=%d", seed), "--produce-models", f}
 	}},
@@ -297,17 +304,28 @@ func Solve(q *Query, tmpDir string, secs, seed int, cross bool) (QResult, []QRes
 	if first < 2 {
 		first = 2
 	}
-	r := runSolver(solvers[0], file, first, seed)
-	all = append(all, r)
-	if r.Verdict != VUnknown {
-		return r, all
+	// stage 1: z3-new with its default configuration and with E-matching only, side by side
+	c1 := make(chan QResult, 2)
+	for _, sp := range solvers[:2] {
+		go func(sp solverSpec) { c1 <- runSolver(sp, file, first, seed) }(sp)
 	}
-	ch := make(chan QResult, 2)
+	var r QResult
+	for i := 0; i < 2; i++ {
+		rr := <-c1
+		all = append(all, rr)
+		if rr.Verdict == VUnsat || (rr.Verdict == VSat && rr.Solver == "z3-new") {
+			return rr, all
+		}
+		if rr.Solver == "z3-new" {
+			r = rr
+		}
+	}
+	ch := make(chan QResult, len(solvers)-1)
 	for _, sp := range solvers[1:] {
 		go func(sp solverSpec) { ch <- runSolver(sp, file, secs, seed) }(sp)
 	}
 	var best QResult
-	for i := 0; i < 2; i++ {
+	for i := 0; i < len(solvers)-1; i++ {
 		rr := <-ch
 		all = append(all, rr)
 		if rr.Verdict != VUnknown && best.Verdict == VUnknown {
